@@ -145,6 +145,8 @@ func globalArrayLiteral(p *Prog, name string) ([]int64, token.Pos, bool) {
 
 func runC04(c *Ctx) {
 	p := c.P
+	// clauses this property shares with others (see DESIGN.md section 6a)
+	defer c.ImportRules("C03", "C03.4", "C03.9")
 
 	c.Rule("C04.1", "every non-constant index into a fixed-size lookup table is proven in range", 3)
 	checkTableLookups(c, "C04.1")
@@ -401,6 +403,8 @@ func runC04(c *Ctx) {
 
 	// ---- C04.6
 	runC04Trailers(c)
+	// ---- C04.7
+	runC04StrictStatus(c)
 
 	// ---- C04.5
 	c.Rule("C04.5", "the percent-encoding escape set and hex helpers are exactly the gRPC spec's", 4)
@@ -630,5 +634,76 @@ func runC04Trailers(c *Ctx) {
 	}
 	if nAdd == 0 {
 		c.Unknown("C04.6", FuncName(dec), "value-trimmed", dec.Pos(), "no store into the trailer map found in the recognised form")
+	}
+}
+
+// runC04StrictStatus: C04.7.  An HTTP error body is taken for a google.rpc.Status only if it IS
+// one: the JSON parser used for it must reject unknown fields, otherwise every JSON object
+// "parses" (to code 0 = OK) and the fallback that maps the HTTP status is never taken.
+func runC04StrictStatus(c *Ctx) {
+	p := c.P
+	c.Rule("C04.7", "error bodies are parsed strictly into google.rpc.Status (unknown fields are not discarded)", 1)
+	n := 0
+	for _, fn := range p.Funcs {
+		if !p.inScope(fn) {
+			continue
+		}
+		for _, call := range Calls(fn) {
+			if !IsCallTo(call, "(google.golang.org/protobuf/encoding/protojson.UnmarshalOptions).Unmarshal") {
+				continue
+			}
+			args := call.Common().Args
+			if len(args) < 3 {
+				continue
+			}
+			// target is a *status.Status
+			isStatus := false
+			for _, l := range Origins(args[2]) {
+				if l.Kind == "alloc" {
+					if pt, ok := l.V.Type().(*types.Pointer); ok {
+						if nm, ok := pt.Elem().(*types.Named); ok && nm.Obj().Name() == "Status" && nm.Obj().Pkg() != nil && strings.HasSuffix(nm.Obj().Pkg().Path(), "rpc/status") {
+							isStatus = true
+						}
+					}
+				}
+			}
+			if !isStatus {
+				continue
+			}
+			n++
+			optsT, _ := args[0].Type().(*types.Named)
+			var discardF *types.Var
+			if optsT != nil {
+				if st, ok := optsT.Underlying().(*types.Struct); ok {
+					for i := 0; i < st.NumFields(); i++ {
+						if st.Field(i).Name() == "DiscardUnknown" {
+							discardF = st.Field(i)
+						}
+					}
+				}
+			}
+			strict := discardF != nil
+			if discardF != nil {
+				var kinds []string
+				for _, l := range StructFieldOriginsAt(args[0], discardF, call) {
+					kinds = append(kinds, l.Kind)
+					if l.Kind == "nil" {
+						continue // zero value of the options struct: DiscardUnknown is false
+					}
+					if k, isK := ConstBool(l.V); l.Kind != "const" || !isK || k {
+						strict = false
+					}
+				}
+				if !strict {
+					c.Note("C04.7 options origins: %v", kinds)
+				}
+			}
+			c.Check(strict, "C04.7", FuncName(fn), "status-body-parsed-strictly", call.Pos(),
+				"the options used to parse an error body as google.rpc.Status do not discard unknown fields",
+				"an error body is parsed as google.rpc.Status with DiscardUnknown (or options of unknown origin): any JSON object is accepted as a Status with code 0, the HTTP-status fallback is skipped and a failing backend answer is relayed as OK")
+		}
+	}
+	if n == 0 {
+		c.Bad("C04.7", "http", "status-body-parsed-strictly", token.NoPos, "no protojson parse of an error body into google.rpc.Status found: shape changed")
 	}
 }
